@@ -1723,3 +1723,32 @@ fn k_surface_wrappers() {
     kani::cover!(alpha == 1.0);
     kani::cover!(alpha == 0.5);
 }
+
+// @ob id=K.draw_image_with_size props=C13 kind=bounded:3-concrete-sizes tier=quick timeout=600 fns=DrawTarget::draw_image_with_size_at
+// @+ desc="draw_image_with_size_at(w,h,x,y,img) for every finite x,y and three target sizes (2x, 1x, 0.5x of a 4x2 image; power-of-two ratios so the float products are exact): one fill_rect(x,y,w,h) with the image as a Pad/Bilinear source whose transform maps the rectangle's corner (x,y) to texel (0,0) and scales by (img.width/w, img.height/h) -- the whole image is stretched over the rectangle"
+#[kani::proof]
+#[kani::unwind(10)]
+#[kani::stub(DrawTarget::fill_rect, fill_rect_rec)]
+fn k_draw_image_with_size() {
+    let mut dt = DrawTarget::new(CW, CH);
+    let data = [0u32; 8];
+    let img = Image { width: 4, height: 2, data: &data };
+    let (x, y): (f32, f32) = (kani::any(), kani::any());
+    kani::assume(x.is_finite() && y.is_finite() && x.abs() <= 4000. && y.abs() <= 4000.);
+    let sizes = [(8f32, 4f32), (4., 2.), (2., 1.)];
+    let mut k = 0;
+    while k < 3 {
+        let (w, h) = sizes[k];
+        unsafe { FR.0 = 0; }
+        dt.draw_image_with_size_at(w, h, x, y, &img, &DrawOptions::new());
+        let fr = unsafe { &FR };
+        assert!(fr.0 == 1 && fr.1[0] == x.to_bits() && fr.1[1] == y.to_bits() && fr.1[2] == w.to_bits() && fr.1[3] == h.to_bits(), "one fill_rect of the requested rectangle");
+        assert!(fr.2 == 1 && fr.4 == (4, 2, data.as_ptr() as usize) && fr.5, "the same image, Pad / Bilinear");
+        let (sx, sy) = (4. / w, 2. / h);
+        let t = fr.3;
+        assert!(f32::from_bits(t[0]) == sx && f32::from_bits(t[1]) == 0. && f32::from_bits(t[2]) == 0. && f32::from_bits(t[3]) == sy, "scale = image size / rectangle size");
+        assert!(f32::from_bits(t[4]) == -x * sx && f32::from_bits(t[5]) == -y * sy, "the rectangle's corner maps to texel (0,0)");
+        k += 1;
+    }
+    kani::cover!(x == 3.5);
+}
